@@ -17,6 +17,7 @@ ENTRY = {
                 "Statement-silent cases are sets of admissible outcomes (control byte inside a comment, HTML-looking line after real rules, line > 64 KiB). "
                 "A cut at a line boundary without framing is a success with the shorter text (named UndetectableCut). "
                 "The parser policy for #-lines that are not plain comments is measured on a title-less text and then demanded everywhere. "
-                "Negative controls that must fail in TLC: FilterRefresh.asis.cfg (pre-fix early return before the engine rebuild; fixed in /repo 9116a9d) and RuleList.modes.cfg (mode-dependent policy).",
+                "A refused set_url (download from the new location fails) is an action of its own: nothing, the remembered checksum included, may change. "
+                "Open known finding failed-set-url-forgets-checksum (fix proposed). Negative controls that must fail in TLC: FilterRefresh.seturlasis.cfg,  FilterRefresh.asis.cfg (pre-fix early return before the engine rebuild; fixed in /repo 9116a9d) and RuleList.modes.cfg (mode-dependent policy).",
         "technique": "TLA+ specs enumerated by TLC; exhaustive vector replay + edge-covering tours on the real code; TLC trace validation of recorded runs",
     }
